@@ -130,3 +130,222 @@ Section TopK.
     erewrite Permutation_length; [exact Hk|]. apply Permutation_sym. now apply filter_permutation.
   Qed.
 End TopK.
+
+(* ------------------------------------------------------------------------------------------ *)
+(** * small facts about the result monad *)
+Lemma map_res_total {A B} (f : A -> res B) l :
+  (forall x, In x l -> exists y, f x = Ok y) -> exists ys, map_res f l = Ok ys.
+Proof.
+  induction l as [|x l IH]; intros H; cbn [map_res]; [now exists []|].
+  destruct (H x (or_introl eq_refl)) as [y Ey]. rewrite Ey. cbn [bind].
+  destruct IH as [ys Eys]; [intros z Hz; apply H; now right|]. rewrite Eys. cbn [bind]. now exists (y :: ys).
+Qed.
+
+Lemma map_res_forall2 {A B} (f : A -> res B) l ys :
+  map_res f l = Ok ys -> Forall2 (fun x y => f x = Ok y) l ys.
+Proof.
+  revert ys. induction l as [|x l IH]; intros ys H; cbn [map_res] in H.
+  - injection H as <-. constructor.
+  - destruct (f x) as [y|] eqn:Ey; cbn [bind] in H; [|discriminate].
+    destruct (map_res f l) as [ys'|] eqn:E; cbn [bind] in H; [|discriminate].
+    injection H as <-. constructor; [exact Ey|now apply IH].
+Qed.
+
+Lemma sorted_map {A B} (f : A -> B) (R : B -> B -> Prop) l :
+  StronglySorted R (map f l) <-> StronglySorted (fun a b => R (f a) (f b)) l.
+Proof.
+  induction l as [|x l IH]; cbn [map]; split; intros H; try constructor; inversion H as [|? ? Hs Hx]; subst.
+  - now apply IH.
+  - rewrite Forall_map in Hx. exact Hx.
+  - now apply IH.
+  - rewrite Forall_map. exact Hx.
+Qed.
+
+(* ------------------------------------------------------------------------------------------ *)
+(** * MutableDictionary::fuzzy_match *)
+Section MutFuzzy.
+  Variable is_lower : char -> bool.
+  Variable lower : char -> list char.
+  Variable dbg : bool.
+  Notation word_id := (word_id is_lower lower).
+  Notation to_lower := (to_lower is_lower lower).
+  Notation mut_meta := (mut_meta is_lower lower).
+  Notation wm_wf := (wm_wf is_lower lower).
+
+  Definition min_dist (qn ql w : text) : nat := Nat.min (lev qn w) (lev ql w).
+
+  (* what the filter_map closure computes, when nothing overflows *)
+  Definition scored_spec (qn ql : text) (d : nat) (ws : list text) : list (text * nat) :=
+    flat_map (fun w => if min_dist qn ql w <=? d then [(w, min_dist qn ql w)] else []) ws.
+
+  Lemma scored_spec_in qn ql d ws w s :
+    In (w, s) (scored_spec qn ql d ws) <-> In w ws /\ s = min_dist qn ql w /\ s <= d.
+  Proof.
+    unfold scored_spec. rewrite in_flat_map. split.
+    - intros (w' & Hin & H). destruct (Nat.leb_spec (min_dist qn ql w') d) as [Hle|Hgt]; [|contradiction].
+      destruct H as [H|[]]. injection H as -> <-. repeat split; assumption.
+    - intros (Hin & -> & Hle). exists w. split; [exact Hin|].
+      destruct (Nat.leb_spec (min_dist qn ql w) d); [now left|lia].
+  Qed.
+
+  Lemma scored_spec_cons qn ql d w ws :
+    scored_spec qn ql d (w :: ws)
+    = (if min_dist qn ql w <=? d then [(w, min_dist qn ql w)] else []) ++ scored_spec qn ql d ws.
+  Proof. reflexivity. Qed.
+
+  (* the scan neither overflows nor depends on what the two reused buffers hold *)
+  Lemma mut_scan_ok qn ql d : length qn <= 254 -> length ql <= 254 ->
+    forall ws ba bb, (forall w, In w ws -> length w <= 254) ->
+    mut_scan dbg qn ql d ws ba bb = Ok (scored_spec qn ql d ws).
+  Proof.
+    intros Hqn Hql. induction ws as [|w ws IH]; intros ba bb Hws; cbn [mut_scan]; [reflexivity|].
+    assert (Hw : length w <= 254) by (apply Hws; now left).
+    destruct (wf_min_alloc_correct dbg qn w ba bb Hqn Hw) as (ba1 & bb1 & E1). rewrite E1. cbn [bind].
+    destruct (wf_min_alloc_correct dbg ql w ba1 bb1 Hql Hw) as (ba2 & bb2 & E2). rewrite E2. cbn [bind].
+    rewrite IH by (intros z Hz; apply Hws; now right). cbn [bind].
+    rewrite scored_spec_cons. unfold min_dist.
+    destruct (Nat.min (lev qn w) (lev ql w) <=? d); reflexivity.
+  Qed.
+
+  Definition attach (m : wordmap) (wd : text * nat) : res fres :=
+    match mut_meta m (fst wd) with
+    | Some md => Ok (mkfres (fst wd) (snd wd) md)
+    | None => Panic PUnwrap
+    end.
+
+  Definition proj (r : fres) : text * nat := (r_word r, r_dist r).
+
+  (* every outcome of the (unstable) sort-and-take over the hash-ordered candidates *)
+  Definition mut_fuzzy_outcome (m : wordmap) (q : text) (d k : nat) (r : list fres) : Prop :=
+    let qn := normalized q in
+    let ql := to_lower qn in
+    exists top,
+      topk_outcome snd (scored_spec qn ql d (filter (in_window (length qn) d) (mut_words m))) k top /\
+      map_res (attach m) top = Ok r.
+
+  Lemma attach_inv m top r : map_res (attach m) top = Ok r ->
+    top = map proj r /\ forall x, In x r -> mut_meta m (r_word x) = Some (r_meta x).
+  Proof.
+    intros H. apply map_res_forall2 in H. induction H as [|wd x top r Hx _ IH]; [split; [reflexivity|intros ? []]|].
+    destruct IH as [-> IHm]. unfold attach in Hx.
+    destruct (mut_meta m (fst wd)) as [md|] eqn:E; [|discriminate]. injection Hx as <-.
+    split; [destruct wd; reflexivity|]. intros y [<-|Hy]; [exact E|now apply IHm].
+  Qed.
+
+  Lemma wm_same_key (m : wordmap) k e e' : NoDup (map fst m) -> In (k, e) m -> In (k, e') m -> e = e'.
+  Proof.
+    intros ND H1 H2. apply (wm_get_in m k e ND) in H1. apply (wm_get_in m k e' ND) in H2. congruence.
+  Qed.
+
+  Lemma mut_meta_of_word m w : wm_wf m -> In w (mut_words m) ->
+    exists e, In (word_id w, e) m /\ e_canon e = w /\ mut_meta m w = Some (e_meta e).
+  Proof.
+    intros [ND K] Hin. unfold mut_words in Hin. apply in_map_iff in Hin as ([k e] & <- & Hin). cbn [snd].
+    pose proof (K k e Hin) as ->. exists e. repeat split; [exact Hin|].
+    unfold DictModel.mut_meta, wm_get_with_chars. now rewrite (proj2 (wm_get_in m _ e ND) Hin).
+  Qed.
+
+  (* the model's deterministic run is one of the outcomes, and it neither panics nor overflows
+     as long as query and words have at most 254 characters *)
+  Theorem mut_fuzzy_total m q d k :
+    wm_wf m ->
+    length (normalized q) <= 254 -> length (to_lower (normalized q)) <= 254 ->
+    (forall w, In w (mut_words m) -> length w <= 254) ->
+    exists r, mut_fuzzy is_lower lower dbg m q d k = Ok r /\ mut_fuzzy_outcome m q d k r.
+  Proof.
+    intros Hwf Hqn Hql Hws. unfold mut_fuzzy, mut_fuzzy_outcome.
+    set (qn := normalized q) in *. set (ql := to_lower qn) in *.
+    set (cands := filter (in_window (length qn) d) (mut_words m)).
+    rewrite (mut_scan_ok qn ql d Hqn Hql cands [] []) by (intros w Hw; apply Hws; apply filter_In in Hw; tauto).
+    cbn [bind].
+    set (top := firstn k (isort (fun a b => snd a <=? snd b) (scored_spec qn ql d cands))).
+    assert (Htop : topk_outcome snd (scored_spec qn ql d cands) k top) by apply isort_topk.
+    destruct (map_res_total (attach m) top) as [r Er].
+    { intros [w s] Hin. apply (topk_in snd _ _ _ _ Htop) in Hin. apply scored_spec_in in Hin as (Hin & _).
+      apply filter_In in Hin as [Hin _]. destruct (mut_meta_of_word m w Hwf Hin) as (e & _ & _ & E).
+      unfold attach. cbn [fst snd]. rewrite E. eauto. }
+    exists r. split; [exact Er|]. exists top. split; [exact Htop|exact Er].
+  Qed.
+
+  Lemma in_window_of_lev (qn x w : text) d : w <> [] -> length x = length qn -> lev x w <= d ->
+    in_window (length qn) d w = true.
+  Proof.
+    intros Hne Hlen Hd. pose proof (lev_len x w) as [L1 L2]. unfold in_window.
+    assert (1 <= length w) by (destruct w; [contradiction|cbn; lia]).
+    apply andb_true_iff. split; [|apply Nat.leb_le; lia].
+    destruct (Nat.leb_spec (length qn) d); apply Nat.leb_le; lia.
+  Qed.
+
+  (* the property, for every outcome *)
+  Theorem mut_fuzzy_sound m q d k r :
+    wm_wf m -> mut_fuzzy_outcome m q d k r ->
+    let qn := normalized q in
+    let ql := to_lower qn in
+    (* each result is a dictionary word with that word's metadata, at its true (smaller) distance, within the bound *)
+    (forall x, In x r ->
+       (exists e, In (word_id (r_word x), e) m /\ e_canon e = r_word x /\ e_meta e = r_meta x) /\
+       r_dist x = min_dist qn ql (r_word x) /\ r_dist x <= d /\ r_word x <> []) /\
+    (* ordered by distance, capped *)
+    StronglySorted (fun a b => r_dist a <= r_dist b) r /\ length r <= k /\
+    (* no dictionary word is listed twice *)
+    NoDup (map r_word r) /\
+    (* complete up to the cap: a non-empty dictionary word within the bound of the query — or of its
+       lower-case form when that has the same length — is returned, unless the result is full of
+       words that are at least as close *)
+    (forall k0 e, In (k0, e) m -> e_canon e <> [] ->
+       (lev qn (e_canon e) <= d \/ (length ql = length qn /\ lev ql (e_canon e) <= d)) ->
+       (exists x, In x r /\ r_word x = e_canon e) \/
+       (length r = k /\ forall x, In x r -> r_dist x <= min_dist qn ql (e_canon e))).
+  Proof.
+    intros Hwf (top & Htop & Er). cbv zeta.
+    set (qn := normalized q) in *. set (ql := to_lower qn) in *.
+    set (cands := filter (in_window (length qn) d) (mut_words m)) in *.
+    destruct (attach_inv m top r Er) as [Etop Hmeta]. pose proof Hwf as [ND K].
+    assert (Hin_top : forall x, In x r -> In (proj x) (scored_spec qn ql d cands)).
+    { intros x Hx. apply (topk_in snd _ _ _ _ Htop). rewrite Etop. now apply in_map. }
+    repeat split.
+    - (* dictionary word + metadata *)
+      pose proof (Hin_top x H) as Hs. unfold proj in Hs. apply scored_spec_in in Hs as (Hc & _ & _).
+      apply filter_In in Hc as [Hc _]. destruct (mut_meta_of_word m _ Hwf Hc) as (e & He & Hcan & Hm).
+      exists e. repeat split; [exact He|exact Hcan|]. rewrite (Hmeta x H) in Hm. now injection Hm.
+    - pose proof (Hin_top x H) as Hs. unfold proj in Hs. apply scored_spec_in in Hs. tauto.
+    - pose proof (Hin_top x H) as Hs. unfold proj in Hs. apply scored_spec_in in Hs. lia.
+    - pose proof (Hin_top x H) as Hs. unfold proj in Hs. apply scored_spec_in in Hs as (Hc & _ & _).
+      apply filter_In in Hc as [_ Hw]. intros E. rewrite E in Hw. unfold in_window in Hw. cbn [length] in Hw.
+      apply andb_true_iff in Hw as [Hw _]. destruct (length qn <=? d) eqn:El; apply Nat.leb_le in Hw; [lia|].
+      apply Nat.leb_gt in El. lia.
+    - (* sorted *)
+      pose proof (topk_sorted snd _ _ _ Htop) as S. rewrite Etop in S.
+      apply (proj1 (sorted_map proj (key_le snd) r)) in S. exact S.
+    - pose proof (topk_length snd _ _ _ Htop) as L. rewrite Etop, map_length in L. lia.
+    - (* no word twice: the candidates are the spellings of a map with unique ids *)
+      assert (NDw : NoDup (mut_words m)).
+      { unfold mut_words. apply (NoDup_map_inv word_id). rewrite map_map.
+        erewrite map_ext_in; [exact ND|]. intros [k0 e] Hin. cbn [fst snd]. symmetry. now apply K. }
+      assert (NDs : NoDup (map fst (scored_spec qn ql d cands))).
+      { assert (NDc : NoDup cands) by (now apply NoDup_filter).
+        clear -NDc. unfold scored_spec. induction cands as [|w ws IH]; cbn [flat_map map]; [constructor|].
+        inversion NDc as [|? ? Hn NDc']; subst. destruct (min_dist qn ql w <=? d); cbn [app map fst]; [|now apply IH].
+        constructor; [|now apply IH]. intros Hin. apply Hn. apply in_map_iff in Hin as ([w' s] & <- & Hin).
+        apply (scored_spec_in qn ql d ws w' s) in Hin. tauto. }
+      destruct Htop as (s & P & _ & Es).
+      assert (NDtop : NoDup (map fst top)).
+      { assert (NDms : NoDup (map fst s)).
+        { eapply Permutation_NoDup; [|exact NDs]. apply Permutation_map. now apply Permutation_sym. }
+        rewrite Es, <- firstn_map. rewrite <- (firstn_skipn k (map fst s)) in NDms.
+        now apply NoDup_app_l in NDms. }
+      rewrite Etop, map_map in NDtop. exact NDtop.
+    - (* complete up to the cap *)
+      intros Hcond. set (w := e_canon e) in *.
+      assert (Hw : In w cands).
+      { apply filter_In. split; [unfold mut_words; apply in_map_iff; now exists (k0, e)|].
+        destruct Hcond as [Hd|[Hl Hd]]; [apply (in_window_of_lev qn qn)|apply (in_window_of_lev qn ql)]; auto. }
+      assert (Hmd : min_dist qn ql w <= d) by (unfold min_dist; destruct Hcond as [Hd|[_ Hd]]; lia).
+      assert (Hs : In (w, min_dist qn ql w) (scored_spec qn ql d cands)) by (apply scored_spec_in; auto).
+      destruct (topk_complete snd _ _ _ _ Htop Hs) as [Hin|[Hlen Hall]].
+      + left. rewrite Etop in Hin. apply in_map_iff in Hin as (x & Ex & Hx). exists x. split; [exact Hx|].
+        unfold proj in Ex. now injection Ex.
+      + right. rewrite Etop, map_length in Hlen. split; [exact Hlen|].
+        intros x Hx. specialize (Hall (proj x)). cbn [proj snd] in Hall. apply Hall. rewrite Etop. now apply in_map.
+  Qed.
+End MutFuzzy.
